@@ -14,7 +14,7 @@ ASSUME = ["the input space is continuous: exhaustive over the configuration latt
 HORIZON = {"quick": 400, "thorough": 2400}
 
 STAGES = ["awgn", "laplacian", "phase", "fading-rayleigh", "fading-rician", "fading-lognormal", "nonlinear-direct", "nonlinear-cartesian", "nonlinear-polar", "nonlinear-noisy"]
-CONSTRAINTS = ["total", "average", "papr-inside", "papr-outside", "per-antenna"]
+CONSTRAINTS = ["total", "average", "papr-inside", "papr-outside", "papr-late", "per-antenna"]
 ARCHS = ["bourtsoulatze", "tung-q", "tung-q2", "kurka", "noma", "wz-small", "wz", "wz-conditional"]
 
 
@@ -165,9 +165,50 @@ def grad_constraint(p, res):
     import kaira.constraints as KC
     con_name, cplx = p["con"], p["cplx"]
     mk = {"total": lambda: KC.TotalPowerConstraint(2.0), "average": lambda: KC.AveragePowerConstraint(0.5), "papr-inside": lambda: KC.PAPRConstraint(6.0),
-          "papr-outside": lambda: KC.PAPRConstraint(1.3), "per-antenna": lambda: KC.PerAntennaPowerConstraint(uniform_power=1.5)}[con_name]
+          "papr-outside": lambda: KC.PAPRConstraint(1.3), "papr-late": lambda: KC.PAPRConstraint(3.0), "per-antenna": lambda: KC.PerAntennaPowerConstraint(uniform_power=1.5)}[con_name]
     con = mk()
     shapes = [(1, 6), (3, 6)] if con_name != "per-antenna" else [(1, 2, 4), (3, 2, 4)]
+    if con_name == "papr-late":
+        # a sparse, peaky item (16 active samples of 256): the clipping loop does not converge early, so its late, more aggressive
+        # iterations run; backward() must work and agree with finite differences on the active coordinates
+        for Bn in (1, 2):
+            for k in range(2):
+                cfg = f"{'complex128' if cplx else 'float64'},shape={Bn}x256,input{k}"
+                active = inputs((Bn, 16), k, 3.0)
+                parts0 = [torch.full((Bn, 256), 0.01, dtype=torch.float64)] + ([torch.full((Bn, 256), -0.01, dtype=torch.float64)] if cplx else [])
+                idx = torch.arange(16) * 16 + 3
+                parts0[0][:, idx] = active
+                if cplx:
+                    parts0[1][:, idx] = inputs((Bn, 16), k + 5, 2.0)
+                leaves = [q.clone().requires_grad_(True) for q in parts0]
+                try:
+                    with torch.enable_grad():
+                        y = con(torch.complex(leaves[0], leaves[1]) if cplx else leaves[0])
+                        L = losses(y)[1]
+                        g = torch.autograd.grad(L, leaves, allow_unused=True)
+                except Exception as e:  # noqa: BLE001
+                    res.viol(con_name, cfg, "raises", f"backward through a clipping PAPR constraint: {type(e).__name__}: {str(e)[:200]}")
+                    continue
+                res.ev(1, nontrivial=1, transitions=2)
+                if any(gi is None or not bool(torch.isfinite(gi).all()) for gi in g):
+                    res.viol(con_name, cfg, "finite", "gradient missing or non-finite")
+                    continue
+                h = 1e-7 * 3.0
+                for e_ in (3, 19, 35, 243):
+                    plus = [q.clone() for q in parts0]
+                    minus = [q.clone() for q in parts0]
+                    plus[0][0, e_] += h
+                    minus[0][0, e_] -= h
+                    with torch.no_grad():
+                        lp = losses(con(torch.complex(plus[0], plus[1]) if cplx else plus[0]))[1]
+                        lm = losses(con(torch.complex(minus[0], minus[1]) if cplx else minus[0]))[1]
+                    fd = float((lp - lm) / (2 * h))
+                    ga = float(g[0][0, e_])
+                    if abs(fd - ga) > 2e-3 * max(abs(fd), abs(ga), float(g[0].abs().max())) + 1e-9:
+                        res.viol(con_name, cfg, "grad=fd", f"element {e_}: autograd {ga:.6g} vs finite difference {fd:.6g}")
+                        break
+        res.sample({"constraint": con_name, "complex": cplx})
+        return
     for shape in shapes:
         for k in range(5 if p["tier"] == "thorough" else 3):
             cfg = f"{'complex128' if cplx else 'float64'},shape={'x'.join(map(str, shape))},input{k}"
